@@ -24,6 +24,8 @@ enum Target { T_HEAD, T_EQUAL, T_LATER, T_EARLIER };
 static const char *kTargetName[] = {"head", "equal", "later", "earlier"};
 
 static std::vector<Bytes> elementsOf(const Bytes &sigEnc, unsigned tag) { std::vector<Bytes> out; Tlv top; if (!decodeOne(sigEnc, top)) return out; std::vector<Tlv> k; if (!decodeList(top.payload.data(), top.payload.size(), k)) return out; for (auto &e : k) if (e.tag == tag) out.push_back(e.enc()); std::sort(out.begin(), out.end()); return out; }
+// the same digest under another algorithm id of equal digest length (the imprint differs in its first octet only)
+static bool relabelAlg(Bytes &imp, uint64_t salt) { if (imp.empty()) return false; int o = -1; switch (imp[0]) { case 1: o = (salt & 1) ? 8 : 11; break; case 8: case 11: o = 1; break; case 4: o = 9; break; case 9: o = 4; break; case 5: o = 10; break; case 10: o = 5; break; case 0: o = 2; break; case 2: o = 0; break; default: break; } if (o < 0) return false; imp[0] = (uint8_t)o; return true; }
 static std::vector<Bytes> rightLinks(const std::vector<CalLink> &l) { std::vector<Bytes> r; for (auto &x : l) if (!x.isLeft) r.push_back(x.sib); return r; }
 
 void harness_case(Dec &d, Case &c) {
@@ -55,8 +57,8 @@ void harness_case(Dec &d, Case &c) {
         case E_OTHER_AGGRTIME: { uint64_t t2 = t + (d.flag() ? 1 : (uint64_t)-1); cc.aggrTime = t2; cc.links = coherentCalLinks(t2, p, salt); break; }
         case E_AGGRTIME_OMITTED: cc.hasAggrTime = false; if (p == t) replyValid = false; break;
         case E_SHAPE_FLIP: { size_t i = d.pick((uint32_t)cc.links.size()); cc.links[i].isLeft = !cc.links[i].isLeft; break; }
-        case E_OTHER_INPUT: flipByte(cc.inputHash, d); break;
-        case E_RIGHT_LINK_ALTERED: { unsigned w = d.pick(3); long i = nthRight(w == 0 ? 0 : d.pick(8), w == 1); if (w == 2 && !oldRight.empty()) i = nthRight(oldRight.size() - 1, false); /* the last right link shared with the previous chain */ if (i < 0) { replyValid = true; break; } size_t rank = 0; for (long j = 0; j < i; j++) if (!cc.links[j].isLeft) rank++; flipByte(cc.links[i].sib, d);
+        case E_OTHER_INPUT: { Bytes scratch = cc.inputHash; flipByte(scratch, d); /* the draws are consumed either way */ if (salt % 3 == 0 && relabelAlg(cc.inputHash, salt)) c.cls("altered:input-hash-relabelled-same-digest"); else cc.inputHash = scratch; break; }
+        case E_RIGHT_LINK_ALTERED: { unsigned w = d.pick(3); long i = nthRight(w == 0 ? 0 : d.pick(8), w == 1); if (w == 2 && !oldRight.empty()) i = nthRight(oldRight.size() - 1, false); /* the last right link shared with the previous chain */ if (i < 0) { replyValid = true; break; } size_t rank = 0; for (long j = 0; j < i; j++) if (!cc.links[j].isLeft) rank++; { Bytes scratch = cc.links[i].sib; flipByte(scratch, d); if (salt % 3 == 0 && rank < oldRight.size() && relabelAlg(cc.links[i].sib, salt)) c.cls("altered:shared-right-link-relabelled-same-digest"); else cc.links[i].sib = scratch; }
             replyValid = rank >= oldRight.size(); /* a right link beyond those of the previous chain is not constrained by it */ c.cls(rank + 1 == oldRight.size() ? "altered:last-shared-right-link" : (rank < oldRight.size() ? "altered:shared-right-link" : "altered:unshared-right-link")); break; }
         case E_LEFT_LINK_ALTERED: { std::vector<size_t> idx; for (size_t i = 0; i < cc.links.size(); i++) if (cc.links[i].isLeft) idx.push_back(i); if (!idx.empty()) flipByte(cc.links[idx[d.pick((uint32_t)idx.size())]].sib, d); replyValid = true; break; } // left links (future side) are not constrained by the old chain
         case E_RIGHT_TO_LEFT: { long i = nthRight(d.pick(8), d.flag()); if (i >= 0) cc.links[i].isLeft = true; else replyValid = true; break; }
